@@ -24,10 +24,13 @@ const (
 	dMethodValue
 	dChanFunc
 	dDeferFunc
+	dGlobalCounter
+	dGlobalMap
+	dCallChain
 	nDefKinds
 )
 
-var defKindName = [...]string{"named-func", "method", "closure-var", "counter-closure", "method-value", "chan-func", "defer-func"}
+var defKindName = [...]string{"named-func", "method", "closure-var", "counter-closure", "method-value", "chan-func", "defer-func", "global-counter", "global-map", "call-chain"}
 
 type c10Def struct {
 	kind    int
@@ -37,6 +40,7 @@ type c10Def struct {
 	hostFn  any  // exported wrapper held by the host (func(int) int)
 	hostOK  bool
 	viaCtx  bool // defined through EvalWithContext
+	desync  bool // a use of a stateful definition went wrong: the model no longer knows its state
 }
 
 func (d *c10Def) src(j int) string {
@@ -55,6 +59,12 @@ func (d *c10Def) src(j int) string {
 		return fmt.Sprintf("func G%d(x int) int { ch := make(chan int); go func() { ch <- x * %d }(); return <-ch + %d }", j, d.a, d.b)
 	case dDeferFunc:
 		return fmt.Sprintf("func D%d(x int) (r int) { defer func() { r += %d }(); r = x * %d; return r }", j, d.b, d.a)
+	case dGlobalCounter:
+		return fmt.Sprintf("var gc%d = %d\nfunc Inc%d(d int) int { gc%d += d; return gc%d * %d }", j, d.b, j, j, j, d.a)
+	case dGlobalMap:
+		return fmt.Sprintf("var gm%d = map[int]int{0: %d}\nvar gs%d []int\nfunc Put%d(v int) int { gm%d[len(gm%d)] = v; gs%d = append(gs%d, v); return len(gm%d)*%d + len(gs%d) + gm%d[0] }", j, d.b, j, j, j, j, j, j, j, d.a, j, j)
+	case dCallChain:
+		return fmt.Sprintf("func ca%d(x int) int { return cb%d(x) + %d }\nfunc cb%d(x int) int { return cc%d(x) * %d }\nfunc cc%d(x int) int { if x > 100 { return x }; return x + 1 }", j, j, d.b, j, j, d.a, j)
 	}
 	return ""
 }
@@ -75,6 +85,12 @@ func (d *c10Def) callee(j int) string {
 		return fmt.Sprintf("G%d", j)
 	case dDeferFunc:
 		return fmt.Sprintf("D%d", j)
+	case dGlobalCounter:
+		return fmt.Sprintf("Inc%d", j)
+	case dGlobalMap:
+		return fmt.Sprintf("Put%d", j)
+	case dCallChain:
+		return fmt.Sprintf("ca%d", j)
 	}
 	return ""
 }
@@ -93,6 +109,14 @@ func (d *c10Def) model(x int) int {
 		return x*d.a + d.b
 	case dDeferFunc:
 		return x*d.a + d.b
+	case dGlobalCounter:
+		d.state += x
+		return d.state * d.a
+	case dGlobalMap:
+		d.state++ // number of Put calls
+		return (1+d.state)*d.a + d.state + d.b
+	case dCallChain:
+		return (x+1)*d.a + d.b
 	}
 	return 0
 }
@@ -124,7 +148,7 @@ func RunC10(t *testing.T, tape *Tape) *Outcome {
 	defs := make([]*c10Def, ndefs)
 	for j := range defs {
 		defs[j] = &c10Def{kind: tape.Choose(nDefKinds), a: 2 + tape.Choose(5), b: 1 + tape.Choose(9), viaCtx: tape.Choose(2) == 1}
-		if defs[j].kind == dCounterClosure {
+		if defs[j].kind == dCounterClosure || defs[j].kind == dGlobalCounter {
 			defs[j].state = defs[j].b
 		}
 	}
@@ -203,6 +227,9 @@ func RunC10(t *testing.T, tape *Tape) *Outcome {
 				d := defs[s.Def]
 				switch s.Kind {
 				case "use-eval", "use-ctx":
+					if d.desync {
+						continue
+					}
 					want := d.model(s.Arg)
 					src := fmt.Sprintf("%s(%d)", d.callee(s.Def), s.Arg)
 					var v reflect.Value
@@ -223,18 +250,20 @@ func RunC10(t *testing.T, tape *Tape) *Outcome {
 					}
 					if got != "" {
 						mism = append(mism, mismatch{si, s.Def, s.Kind, got, want, after, afterDetail})
+						d.desync = true
 					}
 					if cancels > 0 {
 						usesAfterCancel++
 					}
 				case "use-host":
-					if !d.hostOK {
+					if !d.hostOK || d.desync {
 						continue
 					}
 					want := d.model(s.Arg)
 					got := callHostFn(d.hostFn.(func(int) int), s.Arg)
 					if got != fmt.Sprint(want) {
 						mism = append(mism, mismatch{si, s.Def, "use-host", got, want, after, afterDetail})
+						d.desync = true
 					}
 					if cancels > 0 {
 						usesAfterCancel++
@@ -254,12 +283,12 @@ func RunC10(t *testing.T, tape *Tape) *Outcome {
 						src = "go func() { for { host.Tick(3) } }(); go func() { c2 := make(chan int); c2 <- 1 }(); select {}"
 					case xCallsDef:
 						callee := d.callee(s.Def)
-						if d.kind == dCounterClosure {
+						if d.kind == dCounterClosure || d.kind == dGlobalCounter || d.kind == dGlobalMap {
 							// a call that is cut short must not be counted by the model: use
 							// a definition without state for this kind of step
 							callee = ""
 							for j2, d2 := range defs {
-								if d2.kind != dCounterClosure {
+								if d2.kind != dCounterClosure && d2.kind != dGlobalCounter && d2.kind != dGlobalMap {
 									callee = d2.callee(j2)
 									break
 								}
